@@ -69,6 +69,8 @@ pub struct Probes {
     pub order_seqs: u64,
     pub quiescent_tries: u64,
     pub quiescent_try_ok: u64,
+    pub destroys: u64,
+    pub roundtrip_values: u64,
 }
 
 pub struct Runner<'a> {
@@ -520,6 +522,10 @@ fn root_poison(node: &Node, t: usize, spec: &WorldSpec, f: impl Fn(bool) -> bool
         Node::PBoxed(p) => Some((PoisonId::Coll(spec.resolve(&spec.targets[t]).1.unwrap_or(t), vec![]), f(p.is_poisoned()))),
         Node::PRetry(p) => Some((PoisonId::Coll(spec.resolve(&spec.targets[t]).1.unwrap_or(t), vec![]), f(p.is_poisoned()))),
         Node::Shared(n) => root_poison(n, t, spec, f),
+        Node::POwnBoxed(p) => Some((PoisonId::Coll(t, vec![]), f(p.is_poisoned()))),
+        Node::POwnRetry(p) => Some((PoisonId::Coll(t, vec![]), f(p.is_poisoned()))),
+        Node::POwnOwned(p) => Some((PoisonId::Coll(t, vec![]), f(p.is_poisoned()))),
+        Node::Tagged(n, _) => root_poison(n, t, spec, f),
         _ => None,
     }
 }
@@ -549,6 +555,19 @@ fn root_clear(node: &Node, t: usize, spec: &WorldSpec) -> Option<PoisonId> {
             Some(PoisonId::Coll(spec.resolve(&spec.targets[t]).1.unwrap_or(t), vec![]))
         }
         Node::Shared(n) => root_clear(n, t, spec),
+        Node::POwnBoxed(p) => {
+            p.clear_poison();
+            Some(PoisonId::Coll(t, vec![]))
+        }
+        Node::POwnRetry(p) => {
+            p.clear_poison();
+            Some(PoisonId::Coll(t, vec![]))
+        }
+        Node::POwnOwned(p) => {
+            p.clear_poison();
+            Some(PoisonId::Coll(t, vec![]))
+        }
+        Node::Tagged(n, _) => root_clear(n, t, spec),
         _ => None,
     }
 }
@@ -779,6 +798,65 @@ impl<'r, 'a> Th<'r, 'a> {
             Node::PBoxed(c) => self.run_api(&**c, ctx),
             Node::PRetry(c) => self.run_api(&**c, ctx),
             Node::Shared(n) => self.dispatch(n, ctx),
+            Node::OwnBoxed(c) => self.run_api(c, ctx),
+            Node::OwnRetry(c) => self.run_api(&**c, ctx),
+            Node::OwnRef(h) => self.run_api(h.get(), ctx),
+            Node::OwnOwned(c) => self.run_api(&**c, ctx),
+            Node::POwnBoxed(c) => self.run_api(&**c, ctx),
+            Node::POwnRetry(c) => self.run_api(&**c, ctx),
+            Node::POwnOwned(c) => self.run_api(&**c, ctx),
+            Node::Tagged(n, _) => self.dispatch(n, ctx),
+        }
+    }
+
+    /// C16: run a destruction path on a shared target; the values it returns must be the
+    /// stored ones, at the declared positions, reflecting the last write made under a lock
+    fn destroy(&mut self, t: usize, dtor: Dtor) {
+        let world = self.st.r.world;
+        let s = self.st.s();
+        let spec_t = world.spec.targets[t].clone();
+        let node = match world.take_target(t) {
+            Some(n) => n,
+            None => return,
+        };
+        let flat = world.spec.flatten(&spec_t, Some(t));
+        let before = s.held();
+        s.api_begin(ApiKind::NonAcq, false);
+        let vals = run_dtor(*node, dtor);
+        s.api_end();
+        let after = s.held();
+        if before != after {
+            s.report(Clause::NonAcqStateChanged, format!("{:?} of target {} changed the caller's holds from {:?} to {:?}", dtor, t, before, after));
+        }
+        self.st.probe(|p| p.destroys += 1);
+        if let Some(vals) = vals {
+            self.st.probe(|p| p.roundtrip_values += vals.len() as u64);
+            if vals.len() != flat.len() {
+                s.report(Clause::RoundTrip, format!("{:?} of target {} returned {} values, the collection has {} leaves", dtor, t, vals.len(), flat.len()));
+                return;
+            }
+            for (i, (lid, val, layers)) in vals.iter().enumerate() {
+                let fl = &flat[i];
+                if *lid as usize != fl.lid {
+                    s.report(Clause::RoundTrip, format!("{:?} of target {} returned the value of lock {} at position {} where lock {} was declared", dtor, t, lid, i, fl.lid));
+                    continue;
+                }
+                let shadow = s.lock().shadow[fl.lid];
+                if *val != shadow {
+                    s.report(Clause::RoundTrip, format!("{:?} of target {} returned {} for lock {} but the last write made under the lock left {}", dtor, t, val, fl.lid, shadow));
+                }
+                if layers.len() == fl.poison.len() {
+                    for (k, &is_err) in layers.iter().enumerate() {
+                        let (st, flying) = self.st.pstate(&fl.poison[k]);
+                        if st.must && !is_err && !flying {
+                            s.report(Clause::PoisonModel, format!("{:?} reported Ok for {:?} although a panic unwound during an exclusive hold on it since the last clear [{}]", dtor, fl.poison[k], via_text(st.must_direct)));
+                        }
+                        if is_err && !st.may {
+                            s.report(Clause::PoisonModel, format!("{:?} reported Err(poisoned) for {:?} although no panic unwound during any hold on it since the last clear", dtor, fl.poison[k]));
+                        }
+                    }
+                }
+            }
         }
     }
 
@@ -838,6 +916,7 @@ impl<'r, 'a> Th<'r, 'a> {
             Step::GateOpen(g) => s.gate_open(*g),
             Step::GateWait(g) => s.gate_wait(*g),
             Step::Yield => s.yield_point(),
+            Step::Destroy(t, d) => self.destroy(*t, *d),
             Step::Key(k) => match k {
                 KeyOp::Get => {
                     let got = ThreadKey::get();
@@ -1083,6 +1162,120 @@ impl<'r, 'a> Th<'r, 'a> {
     }
 }
 
+type Val = (u32, u64, Vec<bool>);
+
+fn open<T>(r: happylock::poisonable::PoisonResult<T>, layers: &mut Vec<bool>) -> T {
+    match r {
+        Ok(x) => {
+            layers.push(false);
+            x
+        }
+        Err(e) => {
+            layers.push(true);
+            e.into_inner()
+        }
+    }
+}
+
+fn out_vals(v: Vec<LeafOut>, outer: &[bool]) -> Vec<Val> {
+    v.into_iter()
+        .map(|o| {
+            let mut l = outer.to_vec();
+            l.extend(o.layers.iter().copied());
+            (o.pay.lid, o.pay.peek(), l)
+        })
+        .collect()
+}
+
+fn leaf_vals(v: Vec<Leaf>, outer: &[bool]) -> Vec<Val> {
+    out_vals(v.into_iter().map(happylock::lockable::LockableIntoInner::into_inner).collect(), outer)
+}
+
+fn mut_vals(acc: ContAcc<LeafMut<'_>>, outer: &[bool]) -> Vec<Val> {
+    acc.into_vec()
+        .into_iter()
+        .map(|m| {
+            let mut l = outer.to_vec();
+            l.extend(m.layers.iter().copied());
+            (m.pay.lid, m.pay.peek(), l)
+        })
+        .collect()
+}
+
+/// run one destruction path; Some(values in declared order) when the path hands values back
+fn run_dtor(node: Node, dtor: Dtor) -> Option<Vec<Val>> {
+    use happylock::lockable::LockableGetMut;
+    match (node, dtor) {
+        (Node::OwnBoxed(c), Dtor::IntoChild) => Some(leaf_vals(c.into_child().into_vec(), &[])),
+        (Node::OwnBoxed(c), Dtor::IntoInner) => Some(out_vals(c.into_inner().into_vec(), &[])),
+        (Node::OwnBoxed(c), Dtor::IntoIter) => Some(leaf_vals(c.into_iter().collect(), &[])),
+        (Node::OwnRetry(c), Dtor::IntoChild) => Some(leaf_vals(c.into_child().into_vec(), &[])),
+        (Node::OwnRetry(c), Dtor::IntoInner) => Some(out_vals(c.into_inner().into_vec(), &[])),
+        (Node::OwnRetry(c), Dtor::IntoIter) => Some(leaf_vals((*c).into_iter().collect(), &[])),
+        (Node::OwnRetry(mut c), Dtor::GetMut) => Some(mut_vals(c.get_mut(), &[])),
+        (Node::OwnRetry(mut c), Dtor::ChildMut) => Some(mut_vals(LockableGetMut::get_mut(c.child_mut()), &[])),
+        (Node::OwnOwned(c), Dtor::IntoChild) => Some(leaf_vals(c.into_child().into_vec(), &[])),
+        (Node::OwnOwned(c), Dtor::IntoInner) => Some(out_vals(c.into_inner().into_vec(), &[])),
+        (Node::OwnOwned(c), Dtor::IntoIter) => Some(leaf_vals((*c).into_iter().collect(), &[])),
+        (Node::OwnOwned(mut c), Dtor::GetMut) => Some(mut_vals(c.get_mut(), &[])),
+        (Node::OwnOwned(mut c), Dtor::ChildMut) => Some(mut_vals(LockableGetMut::get_mut(c.child_mut()), &[])),
+        (Node::POwnBoxed(p), Dtor::IntoChild) => {
+            let mut l = Vec::new();
+            let c = open(p.into_child(), &mut l);
+            Some(leaf_vals(c.into_child().into_vec(), &l))
+        }
+        (Node::POwnBoxed(p), Dtor::IntoInner) => {
+            let mut l = Vec::new();
+            let c = open(p.into_inner(), &mut l);
+            Some(out_vals(c.into_vec(), &l))
+        }
+        (Node::POwnRetry(p), Dtor::IntoChild) => {
+            let mut l = Vec::new();
+            let c = open(p.into_child(), &mut l);
+            Some(leaf_vals(c.into_child().into_vec(), &l))
+        }
+        (Node::POwnRetry(p), Dtor::IntoInner) => {
+            let mut l = Vec::new();
+            let c = open(p.into_inner(), &mut l);
+            Some(out_vals(c.into_vec(), &l))
+        }
+        (Node::POwnRetry(mut p), Dtor::GetMut) => {
+            let mut l = Vec::new();
+            let c = open(p.get_mut(), &mut l);
+            Some(mut_vals(c, &l))
+        }
+        (Node::POwnRetry(mut p), Dtor::ChildMut) => {
+            let mut l = Vec::new();
+            let c = open(p.child_mut(), &mut l);
+            Some(mut_vals(c.get_mut(), &l))
+        }
+        (Node::POwnOwned(p), Dtor::IntoChild) => {
+            let mut l = Vec::new();
+            let c = open(p.into_child(), &mut l);
+            Some(leaf_vals(c.into_child().into_vec(), &l))
+        }
+        (Node::POwnOwned(p), Dtor::IntoInner) => {
+            let mut l = Vec::new();
+            let c = open(p.into_inner(), &mut l);
+            Some(out_vals(c.into_vec(), &l))
+        }
+        (Node::POwnOwned(mut p), Dtor::GetMut) => {
+            let mut l = Vec::new();
+            let c = open(p.get_mut(), &mut l);
+            Some(mut_vals(c, &l))
+        }
+        (Node::POwnOwned(mut p), Dtor::ChildMut) => {
+            let mut l = Vec::new();
+            let c = open(p.child_mut(), &mut l);
+            Some(mut_vals(c.get_mut(), &l))
+        }
+        (n, _) => {
+            drop(n);
+            None
+        }
+    }
+}
+
 /// try-acquire a leaf through its own API and release it again; Ok(key) = acquired
 fn probe_try(leaf: &Leaf, key: ThreadKey) -> Result<ThreadKey, ThreadKey> {
     fn go<T: TargetApi>(t: &T, key: ThreadKey) -> Result<ThreadKey, ThreadKey> {
@@ -1126,6 +1319,8 @@ pub fn run_scenario(scn: &Scenario) -> RunResult {
     let nl = scn.world.leaves.len();
     let sched = Sched::new(scn.cfg.clone(), nthreads, nl, scn.world.gates);
     sched::install(&sched);
+    sched.lock().tag_drops = vec![0; scn.world.tags];
+    sched.lock().tag_made = vec![0; scn.world.tags];
     let world = World::new(&scn.world, &sched);
     if !world.address_ranks_ok() {
         sched.lock().event(Clause::Harness, 0, "arena addresses are not ascending".into());
@@ -1185,6 +1380,11 @@ pub fn run_scenario(scn: &Scenario) -> RunResult {
         let bad: Vec<(usize, u32)> = g.drops.iter().copied().enumerate().filter(|(_, d)| *d != 1).collect();
         if !bad.is_empty() && !g.abort {
             let d = format!("payload drop counts after teardown (lock, drops) != 1: {:?}", bad);
+            g.event(Clause::DropCount, 0, d);
+        }
+        let bad_tags: Vec<(usize, u32, u32)> = (0..g.tag_drops.len()).filter(|&i| g.tag_drops[i] != g.tag_made[i]).map(|i| (i, g.tag_made[i], g.tag_drops[i])).collect();
+        if !bad_tags.is_empty() && !g.abort {
+            let d = format!("members handed to constructors were not dropped exactly once: (tag, constructed, dropped) {:?}", bad_tags);
             g.event(Clause::DropCount, 0, d);
         }
     }
